@@ -32,7 +32,8 @@ RULE = ("hook: every split of every body of 0..2N+2 bytes into 1..4 frames (empt
         "usize::MAX, overflow, negative, text, duplicated...), plus seeded random scripts (1..48 frames, cuts biased to "
         "N-1/N/N+1, trailers, transport error, Poll::Pending, lying size_hint / is_end_stream) for N in "
         "{0,1,2,7,64,255,256,257,1000,4096, random <=5000, default 2 MB}; net: seeded requests with Content-Length or "
-        "chunked framing against pavex::server::Server. A case is non-trivial when it has at least one byte, a "
+        "chunked framing against pavex::server::Server, plus HTTP/2 requests (prior knowledge; hyper client) whose DATA frames are "
+        "cut by the client, with and without a content-length header (a body needs none over HTTP/2). A case is non-trivial when it has at least one byte, a "
         "header, or a non-data step; distinct = distinct (limit, frame-size sequence, header class, payload kind, outcome).")
 
 
